@@ -102,3 +102,24 @@ Section Contract.
     destruct (spawn_env_contract slot) as (_ & _ & _ & H & _). rewrite H. destruct slot; cbn; split; congruence.
   Qed.
 End Contract.
+
+(* ---- TaskType.get_deps_output_paths ---- *)
+Definition some_paths (outs : list (option str)) : list str :=
+  flat_map (fun o => match o with Some p => [p] | None => [] end) outs.
+
+Lemma deps_output_paths_spec : gen_deps_paths_step true = 0 -> gen_deps_paths_step false = 1 ->
+  forall outs, deps_output_paths outs = some_paths outs.
+Proof.
+  intros Ht Hf outs. unfold deps_output_paths.
+  assert (G : forall acc, fold_left (fun acc o =>
+               match gen_deps_paths_step (match o with None => true | Some _ => false end), o with
+               | 1, Some p => acc ++ [p]
+               | _, _ => acc
+               end) outs acc = acc ++ some_paths outs).
+  { induction outs as [|o rest IH]; intro acc; cbn [fold_left some_paths flat_map].
+    - now rewrite app_nil_r.
+    - destruct o as [p|].
+      + rewrite Hf. rewrite IH. unfold some_paths. now rewrite <- app_assoc.
+      + rewrite Ht. rewrite IH. reflexivity. }
+  exact (G []).
+Qed.
